@@ -1037,8 +1037,14 @@ class Interp:
         if (isinstance(a, (list, tuple)) and not is_sym(a)) or (isinstance(b, (list, tuple)) and not is_sym(b)):
             if t is ast.Add and type(a) is type(b):
                 return a + b
-            if t is ast.Mult:
-                return a * b
+            if t is ast.Mult and not is_sym(a) and not is_sym(b):
+                try:
+                    return a * b
+                except TypeError as ex:
+                    raise Raised(ExcVal("TypeError", args=(str(ex),))) from None
+            if not is_sym(a) and not is_sym(b) and t in (ast.Sub, ast.Add, ast.FloorDiv, ast.Mod, ast.Div, ast.BitAnd, ast.BitOr, ast.BitXor, ast.LShift, ast.RShift, ast.Pow):
+                # lists and tuples support + (same type) and * only: anything else is the PROGRAM's TypeError
+                raise Raised(ExcVal("TypeError", args=(f"unsupported operand type(s) for {t.__name__}: '{type(a).__name__}' and '{type(b).__name__}'",)))
             raise Unsupported("sequence binop")
         if t is ast.Mod and isinstance(a, str) and not is_sym(a):
             if is_sym(b) or (isinstance(b, tuple) and any(is_sym(x) for x in b)):
